@@ -117,6 +117,29 @@ class SuiteTransformer(NodeVisitor):
 
         return node
 
+    def visit_TryStar(self, node):
+        return self.visit_Try(node)
+
+    def visit_ExceptHandler(self, node):
+        if node.type is not None:
+            node.type = self.visit(node.type)
+
+        if node.name is not None and not isinstance(node.name, str):
+            # Python 2 uses a Name node
+            node.name = self.visit(node.name)
+
+        node.body = self.suite(node.body, parent=node)
+        return node
+
+    def visit_match_case(self, node):
+        node.pattern = self.visit(node.pattern)
+
+        if node.guard is not None:
+            node.guard = self.visit(node.guard)
+
+        node.body = self.suite(node.body, parent=node)
+        return node
+
     def visit_While(self, node):
         node.test = self.visit(node.test)
 
